@@ -154,7 +154,9 @@ CHECKS["C08"] = dict(
           "verified against these systems inside Coq (certificate check). Exactness: for f = a.x + b0 on a flat triangle mesh (a in "
           "the plane) and on ANY tetrahedral mesh (either element orientation) the normalised gradient field is the gradient of "
           "u = (a/|a|).x and the right-hand side equals -A u, so the unit-slope function decreasing along grad f solves the system "
-          "exactly. The quarter-turn clause of compute_rotated_f is decided by oracles on flat oriented meshes; termination of "
+          "exactly. Quarter turn (RotatedAffineP): on a flat mesh with unit normal n the field n x grad f of an affine f is the gradient of "
+          "u = (n x a).x, n x a is orthogonal to a and as long as a, and the right-hand side of compute_rotated_f equals -A u, so the "
+          "quarter-turned affine function pinned at vertex 0 solves the system exactly (oracles on flat oriented meshes as well). Termination of "
           "SuperLU on the singular system is not covered (known finding F17) (partial)."),
     design="6/C08", technique="Coq proof parametric in the solver oracle + in-Coq certificate check")
 
